@@ -207,9 +207,11 @@ def run_cache(cfg, res):
       if m > 0:
         for j in sorted(set(r.randrange(d + 1, hi.decisions + 2) for _ in range(min(take, m)))):
           one(S.DeviationPolicy({d: 1, j: 1}), 'preempt@%d,%d' % (d, j))
-    for _ in range(100 if cfg['tier'] == 'quick' else 1500):
+    # small caches cross the high watermark on almost every store: that is where the two handler chains can meet
+    nrand = (100 if cfg['max'] > 2 else 400) if cfg['tier'] == 'quick' else 1500
+    for _ in range(nrand):
       c = r.random()
-      if c < 0.6:
+      if c < 0.75:
         one(S.TargetedPolicy(gen.rng(r.random(), 'tp'), hot, p_hot=r.choice([0.3, 0.5, 0.7]), p_cold=r.choice([0.01, 0.05])), 'targeted')
       else:
         one(S.RandomPolicy(gen.rng(r.random(), 'rp'), p=r.choice([0.05, 0.2, 0.5])), 'random')
